@@ -10,7 +10,7 @@ indirect->indirect) x value classes x position (root / child).  Oracle: the enco
 value, offset, indirection depth) plus structural invariants (tiling, nesting, references).
 """
 from mcx import core, dwarfgen as dg
-from mcx.core import Case, ChoiceSpace, guarded, Raised
+from mcx.core import Case, ChoiceSpace, ListSpace, guarded, Raised
 from mcx.dwarfgen import F, TAG, AT, UT, Abbrev, Die, Unit, DP, null
 from mcx.ref import names as nm
 
@@ -465,6 +465,59 @@ def run(ch):
                         'units': len(units), 'dies': ndies, 'info_bytes': len(secs['.debug_info'])}, checks=ndies)
 
 
+# ---- a unit with more entries than any plausible cache bound -------------------------------------------------------
+
+def _large_gen():
+    for order in ('walk_then_navigate', 'navigate_only', 'navigate_walk_navigate'):
+        for which in ('first', 'fn', 'inner', 'last', 'leaf1000'):
+            yield {'order': order, 'entry': which}
+
+
+def _large_check(desc):
+    """2 506 entries under one root (one byte each for most): an entry object obtained first must navigate to the encoded parent / siblings / children
+    after the whole unit has been walked (whatever a bounded or rebuilt cache did with the other entry objects in between)."""
+    from mcx.props.c10 import big_flat_model
+    secs = big_flat_model()
+    dw = dg.make_dwarfinfo(secs, True, 8)
+    cu = next(dw.iter_CUs())
+    # model: root@11 'big.c\0' -> children: first, fn(inner), 2500 leaves, last
+    offs = {'root': 11}
+    o = 11 + 1 + 6
+    offs['first'] = o
+    o += 1 + 6
+    offs['fn'] = o
+    o += 1 + 3
+    offs['inner'] = o
+    o += 1 + 6 + 1          # inner + the null that ends fn's children
+    leaves = list(range(o, o + 2500))
+    o += 2500
+    offs['last'] = o
+    offs['leaf1000'] = leaves[1000]
+    top_children = [offs['first'], offs['fn']] + leaves + [offs['last']]
+    want = {'first': (11, [x for x in top_children if x != offs['first']], []), 'fn': (11, [x for x in top_children if x != offs['fn']], [offs['inner']]),
+            'inner': (offs['fn'], [], []), 'last': (11, [x for x in top_children if x != offs['last']], []),
+            'leaf1000': (11, [x for x in top_children if x != offs['leaf1000']], [])}[desc['entry']]
+    fails = []
+    d = guarded(dw.get_DIE_from_refaddr, offs[desc['entry']])
+    if isinstance(d, Raised):
+        return [('get_DIE_from_refaddr(%#x)' % offs[desc['entry']], 'an entry', d)], True, repr(d)
+
+    def nav(label):
+        g = guarded(lambda: ((lambda p: None if p is None else p.offset)(d.get_parent()), [x.offset for x in d.iter_siblings()], [x.offset for x in d.iter_children()]))
+        if g != want:
+            what = g if isinstance(g, Raised) else ('parent %r, %d siblings%s, children %r' % (g[0], len(g[1]), ' (itself among them)' if offs[desc['entry']] in g[1] else '', g[2]))
+            fails.append(('%s: %s entry kept by the client' % (label, desc['entry']), 'parent %r, %d siblings, children %r' % (want[0], len(want[1]), want[2]), what))
+    if desc['order'] != 'walk_then_navigate':
+        nav('before any walk')
+    if desc['order'] != 'navigate_only':
+        n = guarded(lambda: [x.offset for x in cu.iter_DIEs() if not x.is_null()])
+        exp_all = sorted([11, offs['first'], offs['fn'], offs['inner'], offs['last']] + leaves)
+        if n != exp_all:
+            fails.append(('iter_DIEs() of the large unit', '%d entries' % len(exp_all), n if isinstance(n, Raised) else '%d entries' % len(n)))
+        nav('after walking the whole unit')
+    return fails, True, repr(desc)
+
+
 def spaces(tier, seed):
     global SEED
     SEED = seed
@@ -472,4 +525,6 @@ def spaces(tier, seed):
     return [ChoiceSpace('die-trees', run, k, rule='free: version {4,5,2,3} x format x address size x order (32 corners); picks: probe form (%d incl. every DWARF 2-5 form, GNU alt forms, indirect x9 incl. cascades) '
                         'x value class (<=12 per form) x position {child, root, root before *_base}; unit type (6, v5); units {1, 2 mixed, 3 mixed, + v4 .debug_types}; abbreviation tables {per unit, shared, '
                         'non-zero offset}; codes {dense, sparse, 2-byte}; tags/attributes {standard, vendor, unknown}; tree {7 shapes to depth 12}; DW_AT_sibling {absent + 6 reference forms}; '
-                        'extra nulls {0,1,3}; null entry bytes {1,2}' % len(PROBE_LABELS), deadline_s=(400 if tier == 'quick' else 4000))]
+                        'extra nulls {0,1,3}; null entry bytes {1,2}' % len(PROBE_LABELS), deadline_s=(400 if tier == 'quick' else 4000)),
+            ListSpace('large-unit', _large_gen, _large_check, nparts=15, rule='one unit of 2 506 entries (2 503 children of the root, one nested): 5 kept entry objects x {navigate, walk the unit then navigate, '
+                      'navigate / walk / navigate}: parent, siblings and children of the kept object equal the encoded tree')]
